@@ -74,6 +74,25 @@ def derived_hit(rng, tree):
     return xp
 
 
+def derived_pred_hit(rng, tree):
+    """P[k=v]/k for a record of a record list that really has k == v: the path resolves"""
+    import re
+
+    cands = []
+    for p, v in X.positions(tree):
+        if isinstance(v, list) and p and all(isinstance(r, dict) for r in v) and v:
+            for r in v:
+                for k, x in r.items():
+                    if (isinstance(x, str) and re.fullmatch(r"[A-Za-z0-9]+", x)) or (isinstance(x, int) and not isinstance(x, bool)):
+                        # every record's k must be text or int (float / bool / None are other classes)
+                        if all(isinstance(q.get(k, ""), (str, int)) and not isinstance(q.get(k, ""), bool) for q in v):
+                            cands.append((p, k, x))
+    if not cands:
+        return None
+    p, k, x = rng.choice(cands)
+    return "%s[%s=%s]/%s" % (X.render_rel(tree, p), k, x, k)
+
+
 def derived_miss(rng, tree):
     poss = [p for p, _ in X.positions(tree) if p]
     if not poss:
@@ -109,6 +128,8 @@ def check_lookup(c):
         return {"item_access_changed_tree": enc_diff(before, enc_val(o))}
     if item[0] == "err" and item[1] not in ALLOWED:
         return {"item_access_raised": item[1]}
+    if c.get("expect_hit") and item[0] == "err":
+        return {"path_resolves_but_item_access_raised": item[1]}
     if xp.startswith("?") and item[0] == "err":
         return {"qmark_item_access_raised": item[1]}
     for d in ("DFLT", None):
@@ -179,6 +200,9 @@ def run(ctx):
             r = rng.random()
             xp = soup(rng) if r < 0.45 else (derived_miss(rng, t) if r < 0.8 else derived_hit(rng, t))
             cases.append({"tree": t, "mode": mode, "xp": xp})
+        ph = derived_pred_hit(rng, t) if isinstance(t, dict) else None
+        if ph:
+            cases.append({"tree": t, "mode": mode, "xp": ph, "expect_hit": True})
     ctx.evaluate("lookup", cases, check_lookup, in_known=in_known, nontrivial=lambda c: len(c["xp"]) > 2)
     # exhaustive small scope: every string of <= k atoms of a reduced xpath alphabet on fixed trees
     import itertools
